@@ -399,8 +399,14 @@ func (l *leader) notifyFlr(includeConfig bool) {
 	for _, repl := range l.repls {
 		select {
 		case repl.leaderUpdateCh <- update:
-		case <-repl.leaderUpdateCh:
-			repl.leaderUpdateCh <- update
+		case pending := <-repl.leaderUpdateCh:
+			// repl has not yet seen the pending update. it is replaced by
+			// the new one, but the config it carries must not be lost
+			u := update
+			if u.config == nil {
+				u.config = pending.config
+			}
+			repl.leaderUpdateCh <- u
 		}
 		if trace {
 			println(l, update, repl.status.id)
